@@ -64,8 +64,9 @@ TOLERANCES = {
     'monotone': 'q_k <= q_{k-1} * (1 + 1e-10) + 1e-13 * scale at every '
                 'callback (CGN / Landweber residual, Kaczmarz distance, '
                 'steepest-descent objective); CGN only until its normal-'
-                'equation residual reaches 1e-10 of its start (after '
-                'convergence it divides rounding-level numbers)',
+                'equation residual reaches 1e-10 of its start; after that '
+                'point r_k <= r_conv * (1 + 1e-6) + 1e-10 * scale (known '
+                'finding C12-K3: it grows without bound)',
     'cg_energy': 'strict decrease e_k < e_{k-1} while e_{k-1} > '
                  '1e-11 * cond * e_0; ||x_n - x*|| <= 1e-8 * cond * '
                  '(||x*|| + ||x_0 - x*||) after n = dim steps for cond <= '
@@ -685,9 +686,14 @@ def _residual_clause(c, strata, clause):
     sv = np.linalg.svd(sym, compute_uv=False)
     cond = _cond_of(sv)
     N = int(c['niter'])
+    overflow = None
     if clause == 'cgn':
         N = max(N, n)
-        S.conjugate_gradient_normal(A.op, x, rhs_el, N, callback=cb)
+        try:
+            S.conjugate_gradient_normal(A.op, x, rhs_el, N, callback=cb)
+        except OverflowError as e:
+            # end point of the growth after convergence (see below)
+            overflow = e
         name = 'conjugate_gradient_normal'
     else:
         omega = float(c['frac']) * 2 / max(A.norm, 1e-9) ** 2
@@ -698,6 +704,7 @@ def _residual_clause(c, strata, clause):
     strata += [clause, pb.cond_label(cond), 'op:' + c['op']['kind'],
                'consistent' if c['consistent'] else 'inconsistent']
     checked = res
+    after = None
     if clause == 'cgn':
         # CGN divides rounding-level quantities once the normal-equation
         # residual s = A^*(rhs - A x) has reached its rounding floor (the
@@ -708,11 +715,31 @@ def _residual_clause(c, strata, clause):
         conv = [k for k, g in enumerate(grads) if g <= floor]
         if conv:
             checked = res[:conv[0] + 1]
-            if any(res[k] > res[conv[0]] * (1 + 1e-6) + 1e-13 * scale
-                   for k in range(conv[0] + 1, len(res))):
-                strata.append('cgn:growth-after-convergence')
+            late = [k for k in range(conv[0] + 1, len(res))
+                    if not res[k] <= res[conv[0]] * (1 + 1e-6) +
+                    1e-10 * scale]
+            if late or overflow is not None:
+                after = (conv[0], late)
+        elif overflow is not None:
+            raise Violation('C12|crash|OverflowError|conjugate_gradient_'
+                            'normal|before-convergence', str(overflow))
     _mono(checked, scale, 'C12|residual|{}|{}'.format(
         name, _dom_kind(c['domain'])), 'residual')
+    if after is not None:
+        # The iteration has converged (normal-equation residual at 1e-10 of
+        # its start) and is asked for more iterations: rounding-level
+        # wiggles are tolerated (1e-6 relative), but the residual must not
+        # grow again.  It does: known finding C12-K3.
+        k0, late = after
+        raise Violation(
+            'C12|residual-after-convergence|conjugate_gradient_normal|' +
+            ('consistent' if c['consistent'] else 'inconsistent'),
+            'converged after {} iterations (residual {:.6g}); with niter = '
+            '{} the residual grows again: {}{}'.format(
+                k0, res[k0], N,
+                ', '.join('it {}: {:.3g}'.format(k, res[k])
+                          for k in late[:1] + late[-1:]),
+                '; ends in OverflowError' if overflow is not None else ''))
     if clause == 'cgn' and cond <= 10 * (1 + 1e-4):
         # least-squares residual by an independent solve
         sq = np.sqrt(A.dY)
